@@ -35,7 +35,12 @@ def observe(c):
     system = sysgen.build_system(strengths, c["desc"])
     du = U.Units(sysgen.py_sys(U, c["dunits"]), U.UnitsDimensions(quantity=1))
     tu = U.Units(sysgen.py_sys(U, c["tunits"]), U.UnitsDimensions(time=1))
-    tr = strengths.RDTrajectory(data=U.UnitArray(list(c["data"]), du), t_sample=U.UnitArray(list(c["ts"]), tu), system=system)
+    src, tsrc = U.UnitArray(list(c["data"]), du), U.UnitArray(list(c["ts"]), tu)
+    tr = strengths.RDTrajectory(data=src, t_sample=tsrc, system=system)
+    if c.get("scribble"):
+        # the caller reuses its buffers after handing them over: whatever the trajectory then holds, every accessor must still
+        # agree with direct indexing of its data (read back below and used as the reference array)
+        src.value[:] = [-(7.0 + i) for i in range(len(c["data"]))]
     sp = c["desc"]["space"]
     units_ok = True
 
@@ -80,6 +85,7 @@ def observe(c):
         chk(r.units)
         o["merged"].append([float(v) for v in r.value])
     o["units_ok"] = units_ok
+    o["direct"] = [float(v) for v in tr.data.value]
     for q in c["queries"]:
         t = q["t"] if q["units"] is None else U.UnitValue(q["t"], U.Units(sysgen.py_sys(U, q["units"]), U.UnitsDimensions(time=1)))
         try:
@@ -90,12 +96,20 @@ def observe(c):
     return o
 
 
+def ref_data(c, o):
+    """the array every accessor is compared with: what was handed over, or - when the caller scribbled over its buffer afterwards -
+    the trajectory's own data as read back at the end"""
+    if c.get("scribble") and len(o.get("direct", [])) == len(c["data"]):
+        return o["direct"]
+    return c["data"]
+
+
 def emit(c, o):
     gq = g_list(["{| q_t := %s; q_units := %s; q_policy := %s |}" % (
         g_float(q["t"]), "None" if q["units"] is None else "(Some %s)" % si.g_usys(q["units"]), POL[q["policy"]])
         for q in c["queries"]])
     gc = ("{| c_traj := {| tN := %s; tS := %s; tC := %s; tdata := %s; tunits := %s |}; c_ts := %s; c_tunits := %s; c_queries := %s |}" % (
-        g_nat(c["N"]), g_nat(c["S"]), g_nat(c["C"]), g_list([g_float(v) for v in c["data"]]), si.g_usys(c["dunits"]),
+        g_nat(c["N"]), g_nat(c["S"]), g_nat(c["C"]), g_list([g_float(v) for v in ref_data(c, o)]), si.g_usys(c["dunits"]),
         g_list([g_float(v) for v in c["ts"]]), si.g_usys(c["tunits"]), gq))
     ll = lambda rows: g_list([g_list([g_float(v) for v in row]) for row in rows])
     lk = []
@@ -111,7 +125,7 @@ def oracle(it):
     c, o = it["case"], it["obs"]
     name = "point / state / trajectory accessors and direct indexing at n*S*C + s*C + c agree; merged = sum over cells; look-ups return closest (ties earlier) / last not after / first not before, None when no such sample"
     N, S, C = c["N"], c["S"], c["C"]
-    d = c["data"]
+    d = ref_data(c, o)
     if not o["units_ok"]:
         return False, name + " [units]"
     k = 0
@@ -186,7 +200,8 @@ def gen_cases(rng, tier):
                 t += rng.choice([0.5, 1.0, 2.0, 3.0]) if strict else rng.choice([0.0, 0.0, 1.0, 2.0])
             tunits = ["µm", rng.choice(si.TIME), "molecule"]
             cases.append({"N": N, "S": S, "C": C, "desc": _desc(S, C, kind, rng), "data": data, "dunits": sysgen.rand_sys(rng),
-                          "ts": ts, "tunits": tunits, "queries": rand_queries(rng, ts, tunits, strict), "strict": strict})
+                          "ts": ts, "tunits": tunits, "queries": rand_queries(rng, ts, tunits, strict), "strict": strict,
+                          "scribble": rng.random() < 0.4})
     # empty trajectories
     for kind in ("grid", "graph"):
         cases.append({"N": 0, "S": 1, "C": 2, "desc": _desc(1, 2, kind, rng), "data": [], "dunits": ["µm", "s", "molecule"],
